@@ -228,6 +228,7 @@ HARNESS_PKGS = {
     'server/protocol': 'protocol',
     'server/telemetry': 'telemetry',
     'server/encryption': 'encryption',
+    '.': 'main',            # the command line entry point (package main in the repository root)
 }
 
 
